@@ -78,6 +78,13 @@ def gate_dispatch(run, f, direction, rule='R11.gate'):
                 return _Sym('random', rec(nd.args[0]) if nd.args else None)
             if isinstance(fn, ast.Name) and fn.id == 'mask':
                 return _Sym('mask', *[rec(a) for a in nd.args[:2]])
+            if isinstance(fn, ast.Name) and fn.id == 'random_clifford' and len(nd.args) == 1 and not nd.keywords:
+                return _Sym('random-strings', rec(nd.args[0]))      # the symplectic matrix only: no phases are drawn by this call
+            if isinstance(fn, ast.Name) and fn.id == 'CliffordMap' and len(nd.args) == 1 and not nd.keywords:
+                inner = rec(nd.args[0])
+                if isinstance(inner, _Sym) and inner.desc[0] == 'random-strings':
+                    return _Sym('map-with-default-phases', inner)   # PauliList.__init__ fills ps with zeros when it is not given
+                raise Undecidable('call ' + norm(nd))
             if isinstance(fn, ast.Name) and fn.id == 'Pauli' and len(nd.args) == 1 and not any(k.arg in ('p',) for k in nd.keywords):
                 return _Sym('pauli-without-phase')          # an operator built from a string only: phase 0, whatever the generator's sign
             if isinstance(fn, ast.Name) and fn.id in ('getattr', 'setattr') and len(nd.args) >= 2 and norm(nd.args[0]) == 'self':
@@ -178,6 +185,10 @@ def _judge(run, rule, f, direction, own, other, obj, objN, glob, has_gen, has_ow
             bad = [(a, v) for a, v, _ in stores if not (a == own and v == _Sym('inv', _Sym('OTHER')))]
             run.check(not bad, rule, f, node, 'only the lazily inverted %s may be cached: %s' % (own, bad))
         else:
+            if isinstance(what, _Sym) and what.desc[0] == 'map-with-default-phases':
+                run.violation(rule + '.random', f, node, 'the random gate applies CliffordMap(random_clifford(n)) built without phases: the 2n sign bits '
+                              'are never drawn (all zero), so only 1/4^n of the Clifford group is reachable in this direction')
+                return
             run.check(isinstance(what, _Sym) and what.desc[0] == 'random' and what.desc[1] == 2, rule + '.random', f, node,
                       'a gate without generator and maps is a random gate: it must draw random_clifford_map(self.n) (found %r)' % (what,))
             run.check(not stores, rule + '.random', f, node, 'a random gate is resampled at every call: the sampled map must not be '
